@@ -149,6 +149,17 @@ def judge(data, mode, edits):
     cls = "%d%s" % (raw["size"], "le" if raw["sex"] == 1 else "be")
     opaque = binlab.elf_opaque_ranges(raw)
 
+    def nobits_padding(b, expected):
+        """root cause recognised: zero bytes appended up to the file offset of a NOBITS section lying beyond EOF"""
+        if len(b) > len(expected) and b[:len(expected)] == expected and not b[len(expected):].strip(b"\x00"):
+            for s in raw["shdrs"]:
+                if s["type"] == 8 and s["offset"] == len(b) and s["offset"] > len(expected):
+                    return ("roundtrip:nobits-offset-beyond-eof:padding-appended",
+                            "file of %d bytes whose NOBITS section %r has sh_offset %#x (beyond the end of the file, it occupies "
+                            "no file space): serialisation is %d bytes, the original followed by %d zero bytes"
+                            % (len(expected), s["name_s"], s["offset"], len(b), len(b) - len(expected)))
+        return None
+
     def parse(d, what):
         try:
             return elf_init.ELF(d), None
@@ -169,6 +180,9 @@ def judge(data, mode, edits):
         if err:
             return err
         if b != data:
+            r = nobits_padding(b, data)
+            if r:
+                return r
             d = binlab._first_diff(b, data)
             return ("roundtrip:pristine:%s" % cls, "bytes(ELF(data)) differs from data at offset %#x (lengths %d / %d)"
                     % (d, len(b), len(data)))
@@ -194,6 +208,9 @@ def judge(data, mode, edits):
         if err:
             return err
         if b != mutated:
+            r = nobits_padding(b, mutated)
+            if r:
+                return r
             d = binlab._first_diff(b, mutated)
             return ("roundtrip:byte-mutant:%s" % cls, "bytes(ELF(m)) differs from m at offset %#x" % d)
         df = diff_snap(snapshot(e), raw_snapshot(raw))
@@ -227,6 +244,9 @@ def judge(data, mode, edits):
         if err:
             return err
         if b != mutated:
+            r = nobits_padding(b, mutated)
+            if r:
+                return r
             d = binlab._first_diff(b, mutated)
             return ("roundtrip:table-mutant:%s" % cls, "bytes(ELF(m)) differs from m at offset %#x" % d)
         df = diff_snap(snapshot(e), raw_snapshot(raw2))
@@ -292,6 +312,9 @@ def judge(data, mode, edits):
     if err:
         return err
     if b != expected:
+        r = nobits_padding(b, expected)
+        if r:
+            return r
         d = binlab._first_diff(b, expected)
         inside = [i for (lo, size, i) in opaque if lo <= d < lo + size]
         return ("edit:serialised:%s" % ("in-edited-section" if inside and inside[0] in new_contents else "elsewhere"),
@@ -319,7 +342,8 @@ def is_nontrivial(raw):
 class C43(Check):
     pid = "C43"
     rule = ("corpus compiled per shard from generated C (26 recipes: gcc -c at 3 -O levels/-g/-ffunction-sections, -m32 -c, "
-            "-nostdlib -static 64/32/PIE, -shared x4, clang -c for 7 big-endian + 5 little-endian triples); per file: pristine "
+            "-nostdlib -static 64/32/PIE, -shared x4, clang -c for 7 big-endian + 5 little-endian triples) plus the four linked "
+            "ELF samples of example/samples (ARM, AArch64, big-endian PowerPC, x86-64 PIE); per file: pristine "
             "round trip + parse vs independent reader, then Hypothesis cases of same-size API edits, byte mutants of opaque "
             "section contents and value-field mutants of symbol/relocation/dynamic tables. Non-trivial: file has a symbol "
             "table and relocation entries; distinct by (file hash, mode, edits).")
@@ -328,7 +352,7 @@ class C43(Check):
         "edited / mutated bytes belong to sections whose type the loader does not interpret (not SYMTAB/DYNSYM/STRTAB/"
         "REL/RELA/DYNAMIC/NOTE/NOBITS) and that overlap no header table; table-field mutants touch only st_value, st_size, "
         "r_offset, r_addend, d_val",
-        "big-endian inputs are relocatable objects only (no foreign linker in the sandbox)",
+        "big-endian inputs are relocatable objects (no foreign linker in the sandbox) and the repository's md5_ppc32b executable",
     ]
     level_text = "generated-input search over toolchain output and mutants; no violation found is not a proof"
     technique = "round-trip differential against the raw file + independent ELF reader"
@@ -347,6 +371,9 @@ class C43(Check):
         case = st.tuples(st.sampled_from(["api", "api", "bytes", "bytes", "table"]), st.lists(edit, min_size=1, max_size=5))
         with binlab.Scratch("c43") as scratch:
             corpus = binlab.build_elf_corpus(scratch, "%d-%d" % (seed, shard), picks, res)
+        extra = binlab.repo_elf_sample(shard)
+        if extra is not None:
+            corpus.append(extra)
         for n, (label, kind, data, src) in enumerate(corpus):
             raw = binlab.parse_elf_raw(data)
             nt = is_nontrivial(raw)
@@ -371,7 +398,7 @@ class C43(Check):
                     res.fail(r[0], "%s: %s" % (label, r[1]), {"label": label, "elf_z": packed, "mode": mode, "edits": edits})
             hyp.survey(case, ncases, derive_seed(seed, shard, n), one)
         if corpus:
-            res.samples.append({"label": corpus[-1][0], "source": corpus[-1][3][:400]})
+            res.samples.append({"label": corpus[0][0], "source": corpus[0][3][:400]})
         return res
 
     def replay(self, case):
